@@ -200,7 +200,8 @@ Qed.
 Definition qf (s' s : socket) : Prop :=
   s_state s' = s_state s /\ s_tuple s' = s_tuple s /\ s_listen_endpoint s' = s_listen_endpoint s /\
   s_local_seq_no s' = s_local_seq_no s /\ s_remote_last_ack s' = s_remote_last_ack s /\
-  s_rtte s' = s_rtte s /\ s_ack_delay s' = s_ack_delay s.
+  s_rtte s' = s_rtte s /\ s_ack_delay s' = s_ack_delay s /\
+  s_remote_last_seq s' = s_remote_last_seq s.
 
 Lemma qf_refl s : qf s s.
 Proof. repeat split. Qed.
@@ -223,4 +224,76 @@ Proof.
       destruct (rb_dequeue_slice (s_rx_buffer s) n) as (rx, bytes). inversion E; subst.
       unfold qf. sproj. repeat split; reflexivity.
     + split; [reflexivity | apply qf_refl].
+Qed.
+
+(* ---------------------------------------------------------------------------------------- *)
+(* a SYN that has to be (re)transmitted: the socket wants to be polled now, and a poll sends it  *)
+(* ---------------------------------------------------------------------------------------- *)
+Lemma local_mss_ok cx : 52 < cx_ip_mtu cx -> exists m, tcp_local_mss cx = Ok m.
+Proof.
+  intros H. unfold tcp_local_mss, usub. change wipv4_HEADER_LEN with 20. change wtcp_HEADER_LEN with 20.
+  destruct (Z.ltb_spec (cx_ip_mtu cx - 20) 0); [lia|]. cbn [obind].
+  destruct (Z.ltb_spec (cx_ip_mtu cx - 20 - 20) 0); [lia|]. eexists. reflexivity.
+Qed.
+
+Lemma syn_seq_to_transmit cx s :
+  s_tuple s <> None -> (s_state s = SynSent \/ s_state s = SynReceived) ->
+  s_remote_last_seq s = s_local_seq_no s -> 52 < cx_ip_mtu cx ->
+  tcp_seq_to_transmit cx s = Ok true.
+Proof.
+  intros Htu Hst Hrl Hm. unfold tcp_seq_to_transmit.
+  destruct (s_pending_fast_retransmit s && negb (rb_is_empty (s_tx_buffer s)) && (s_remote_win_len s >? 0)); [reflexivity|].
+  destruct (s_tuple s); [|congruence].
+  destruct (local_mss_ok cx Hm) as (m & ->). cbn [obind].
+  rewrite Hrl, Z.eqb_refl. cbn [negb]. destruct Hst as [-> | ->]; reflexivity.
+Qed.
+
+Lemma syn_poll_now cx s :
+  s_tuple s <> None -> (s_state s = SynSent \/ s_state s = SynReceived) ->
+  s_remote_last_seq s = s_local_seq_no s -> 52 < cx_ip_mtu cx ->
+  tcp_poll_at cx s = Ok PNow.
+Proof.
+  intros Htu Hst Hrl Hm. unfold tcp_poll_at.
+  destruct (s_tuple s) eqn:Et; [|congruence]. cbn [is_some negb].
+  destruct (is_some (s_remote_last_ts s)); cbn [negb]; [|reflexivity].
+  assert (Hnc : tcp_state_eqb (s_state s) Closed = false) by (destruct Hst as [-> | ->]; reflexivity).
+  rewrite Hnc. rewrite (syn_seq_to_transmit cx s ltac:(rewrite Et; discriminate) Hst Hrl Hm). reflexivity.
+Qed.
+
+Theorem syn_dispatch_emits : forall cx s t s' res tags,
+  tcp_live_inv s -> (s_state s = SynSent \/ s_state s = SynReceived) -> s_timeout s = None ->
+  s_tuple s = Some t -> tu_local_addr t = cx_addr cx ->
+  s_remote_last_seq s = s_local_seq_no s -> 52 < cx_ip_mtu cx ->
+  tcp_dispatch cx s true = Ok (s', res, tags) -> exists p, res = DSent p.
+Proof.
+  intros cx s t s' res tags I Hst Hto Htu Haddr Hrl Hm H.
+  assert (Hhs : hs_state (s_state s)) by (destruct Hst as [X | X]; [left | right; left]; exact X).
+  destruct (dispatch_keeps _ _ _ _ _ _ _ I Hhs Hto Htu Haddr H) as (Kst & _).
+  unfold tcp_dispatch in H. rewrite Htu, Haddr, Z.eqb_refl in H. cbn [negb] in H.
+  obind_inv H. destruct a as (s1, t1). rename E into Edt.
+  pose proof (dt_pre_core cx s) as (Q1 & _ & Q3 & _ & Q5 & Q6 & _).
+  pose proof (not_timed_out (dt_pre cx s) (cx_now cx) ltac:(rewrite dt_pre_timeout; exact Hto)) as Hnto.
+  assert (D : s_local_seq_no s1 = s_local_seq_no s /\ s_state s1 = s_state s /\ s_tuple s1 = s_tuple s /\
+              s_remote_last_seq s1 = s_local_seq_no s).
+  { destruct (dt_spec _ _ _ _ Edt) as [(X & _) | [(_ & _ & ->) | (_ & _ & D1 & D2 & _ & D4 & _ & _ & _ & _ & _ & _ & D13 & _)]].
+    - rewrite Hnto in X. discriminate.
+    - rewrite Q1, Q3, Q5, Q6. auto.
+    - rewrite D1, D2, D4, Q1, Q3, Q5. split; [reflexivity|]. split; [reflexivity|]. split; [reflexivity|].
+      destruct D13 as [X | X]; rewrite X; [rewrite Q6; exact Hrl | exact Q5]. }
+  destruct D as (D1 & D3 & D4 & D6).
+  obind_inv H. destruct a as ((s2, go), t2). rename E into Edd.
+  assert (Hstt : tcp_seq_to_transmit cx s1 = Ok true).
+  { apply syn_seq_to_transmit; [rewrite D4, Htu; discriminate | rewrite D3; exact Hst | rewrite D6, D1; reflexivity | exact Hm]. }
+  assert (E2 : s2 = s1 /\ go = true).
+  { unfold tcp_dispatch_decide in Edd. rewrite Hstt in Edd. cbn [obind] in Edd. inversion Edd; auto. }
+  destruct E2 as (-> & ->). cbn [negb] in H.
+  obind_inv H. destruct a as ((((s3, o), z), k), t3). rename E into Ebd.
+  unfold tcp_dispatch_build in Ebd.
+  assert (Ho : exists repr, o = Some repr).
+  { rewrite D3 in Ebd. destruct Hst as [X | X]; rewrite X in Ebd; cbn [obind] in Ebd;
+      unfold tcp_syn_repr, repr_is_empty in Ebd; cbn [r_payload r_control control_eqb andb] in Ebd;
+      rewrite Bool.andb_false_r in Ebd; cbn [control_eqb] in Ebd;
+      obind_inv Ebd; inversion Ebd; subst; eexists; reflexivity. }
+  destruct Ho as (repr & ->). cbn [negb] in H.
+  destruct (tcp_dispatch_finish cx s3 repr z k) as (s4, t4). inversion H; subst. eexists. reflexivity.
 Qed.
